@@ -220,6 +220,9 @@ def c14(tier, seed):
         "by Gen.decode and compared with the chosen levels; non-trivial = table with more than 2 entries"), t0, machinery_error=err)
 
 
+MAX_ATTEMPTS = 40
+
+
 def cont_tlc_case(c, exp_rec, ei):
     """one returned sequence of a design with continuous factors -> the record Continuous.tla replays"""
     names = [cd["name"] for cd in c["continuous"]]
@@ -242,7 +245,17 @@ def cont_tlc_case(c, exp_rec, ei):
     e = exp_rec["exps"][ei]
     T = e["n"]
     final = [exp_rec["cont"][ei].get(n, []) for n in names]
-    return {"T": T, "cf": cf, "cons": cons, "disc": e["s"], "calls": exp_rec["cont_log"], "final": final}
+    calls = exp_rec["cont_log"]
+    # A constraint that rarely holds makes the sampler resample thousands of times.  Attempts are memoryless (Resample
+    # resets every column) and have a fixed number of recorded calls, so dropping whole attempts from the middle of the
+    # log leaves a behaviour of the same specification: keep the first and the last MAX_ATTEMPTS/2 attempts.
+    per_attempt = T * sum(1 for x in cf if x["custom"])
+    dropped = 0
+    if per_attempt > 0 and len(calls) > MAX_ATTEMPTS * per_attempt and len(calls) % per_attempt == 0:
+        half = (MAX_ATTEMPTS // 2) * per_attempt
+        dropped = (len(calls) - 2 * half) // per_attempt
+        calls = calls[:half] + calls[-half:]
+    return {"T": T, "cf": cf, "cons": cons, "disc": e["s"], "calls": calls, "final": final, "dropped_attempts": dropped}
 
 
 def c22(tier, seed):
